@@ -1454,7 +1454,10 @@ class ComponentSpecification(experiment.model.interface.InternalRepresentationAt
                 else:
                     continue
                 replacement = ':'.join((replacement, d.method))
-                pattern = re.compile(r'\b' + re.escape(original_reference) + r'\b')
+                # Match the reference as a whole token: it must not continue to the left with characters that can be
+                # part of a reference (else "A:ref" also matches inside "stage0.A:ref" or "B-A:ref"), and "\b" cannot
+                # be used on the left because references to absolute paths start with "/"
+                pattern = re.compile(r'(?<![\w./-])' + re.escape(original_reference) + r'(?!\w)')
                 arguments = re.sub(pattern, replacement, arguments)
 
             # Only replicas carry a replica-index suffix. Strip exactly that index - a component (or blueprint)
